@@ -32,9 +32,17 @@ type logDB struct {
 
 // lines chosen to tell the suspected rewrites apart: "aXb" matches the regex a.b but not
 // the text "a.b"; "ERR" matches (?i)err but not err; JSON lines feed json/unwrap stages.
-var logLines = []string{"err", "ERR", "a.b", "aXb", "100%", "100x", "a_b", "acb", "it's", "x", `{"n":1,"lvl":"err","msg":"a.b"}`, `{"n":5,"lvl":"ERR","msg":"aXb"}`, `{"n":"2.5","lvl":"x"}`, "12 x"}
+var logLines = []string{"err", "ERR", "a.b", "aXb", "100%", "100x", "a_b", "acb", "it's", "x", `{"n":1,"lvl":"err","msg":"a.b"}`, `{"n":5,"lvl":"ERR","msg":"aXb"}`, `{"n":"2.5","lvl":"x"}`, "12 x",
+	`{"order":{"items":[7,8,9]},"a":[1,2,{"b":"z"}],"x":{"y":"q"},"n":3}`, `{"order":{"items":["p"]},"a":["only"],"n":4}`}
 
-func genLogDB(rt *rapid.T, fromNs, toNs int64) logDB {
+// arrayLines feed `| json x="order.items[0]"`-style paths: different elements at every index.
+var arrayLines = []string{
+	`{"order":{"items":[7,8,9]},"a":[1,2,{"b":"z"}],"x":{"y":"q"},"n":3}`,
+	`{"order":{"items":["p","q"]},"a":["only",5,{"b":"w"}],"n":4}`,
+	`{"order":{"items":[0,1]},"a":[{"b":"first"},{"b":"second"},{"b":"third"}],"n":5}`,
+}
+
+func genLogDB(rt *rapid.T, fromNs, toNs int64, arrays bool, want map[string]string) logDB {
 	db := logDB{}
 	n := rapid.IntRange(1, 4).Draw(rt, "nstreams")
 	for i := 0; i < n; i++ {
@@ -47,10 +55,20 @@ func genLogDB(rt *rapid.T, fromNs, toNs int64) logDB {
 		if len(s.Labels) == 0 {
 			s.Labels["app"] = "a"
 		}
+		if i == 0 || chance(rt, 50, "matchingStream") {
+			// make the stream satisfy the query's equality matchers, so that rows come back
+			for k, v := range want {
+				s.Labels[k] = v
+			}
+		}
 		ne := rapid.IntRange(1, 6).Draw(rt, "nentries")
 		for j := 0; j < ne; j++ {
 			ts := fromNs - 10e9 + rapid.Int64Range(0, toNs-fromNs+20e9).Draw(rt, "ts")
-			s.Entries = append(s.Entries, logEntry{TsNs: ts, Line: pick(rt, logLines, "line")})
+			line := pick(rt, logLines, "line")
+			if arrays && chance(rt, 60, "arrayLine") {
+				line = pick(rt, arrayLines, "arrayLineKind")
+			}
+			s.Entries = append(s.Entries, logEntry{TsNs: ts, Line: line})
 		}
 		db.Streams = append(db.Streams, s)
 	}
